@@ -236,8 +236,9 @@ impl IndentationVisitor {
         if let Some(eq_offset) = between.find('=') {
             let eq_abs = left_end + eq_offset;
 
+            // Don't join lines or swallow a comment before the `=`.
             let before_eq = &self.src[left_end..eq_abs];
-            if before_eq != " " {
+            if before_eq != " " && !before_eq.contains('\n') && !before_eq.contains('/') {
                 self.span_edits.push(SpanEdit {
                     start_offset: left_end,
                     end_offset: eq_abs,
